@@ -30,6 +30,13 @@ impl<A: Actor> Receiver<A> {
     }
 }
 
+impl<A: Actor> Receiver<A> {
+    /// Drops every message that is still queued.
+    pub(crate) fn discard_queued(&self) {
+        while self.messages.try_recv().is_ok() {}
+    }
+}
+
 pub(crate) enum MailboxEvent<A: Actor> {
     Message(Delivering<A>),
     Stop,
